@@ -49,6 +49,8 @@ def graph_ops(case):
     segs = list(g.segment_names)
     if not segs:
         return [], []
+    if any(l.virtual for l in g.lines):
+        return [], []     # a placeholder line cannot be handed to the model as a line (it is written with a commentary tag)
     ops = [op("g.new", v)] + [op("g.add", str(l)) for l in g.lines if l.record_type in "SLCPEGFOU"]
     exp = ["ok"] * len(ops)
     sn = segs[case["pick"] % len(segs)]
